@@ -9,10 +9,12 @@ open Ex_c03
 open Common_c03
 open Ta_io_c03
 
-let judge pre a u l e i fails drift =
+let judge pre a u l e um lm i fails drift =
   let fail g = fails := (pre ^ g) :: !fails and dr g = drift := (pre ^ g) :: !drift in
   if not (gate_unreach a u) then fail "unreach";
   if not (gate_useless a l) then fail "useless";
+  if not (gate_unreach a um) then fail "unreach_with_map";
+  if not (gate_useless a lm) then fail "useless_with_map";
   if not (gate_empty a e) then fail "empty";
   if not (ta_same a i) then fail "operand_changed";
   if not (ta_same u (remove_unreachable a)) then dr "unreach";
@@ -31,8 +33,10 @@ let () = each_line (fun l0 ->
       expect t "U"; let u = read_ta t in
       expect t "L"; let l = read_ta t in
       expect t "E"; let e = (num t = 1) in
+      expect t "UM"; let um = read_ta t in
+      expect t "LM"; let lm = read_ta t in
       expect t "I"; let i = read_ta t in
-      judge pre a u l e i fails drift; (u, l) in
+      judge pre a u l e um lm i fails drift; (u, l) in
     let (u0, l0) = stage "" a in
     let cur = ref a and lu = ref u0 and ll = ref l0 and stages = ref 0 in
     if kind = "trimh" then begin
